@@ -25,6 +25,7 @@ import EPV.Lemmas.MapArrayObserve
 import EPV.Lemmas.MapArrayClosed
 import EPV.Lemmas.MapArrayHof
 import EPV.Lemmas.MapArrayLookup
+import EPV.Lemmas.MapArrayDeepEq
 namespace EPV.C15
 open EPV.MapArray
 
@@ -49,17 +50,14 @@ theorem code_key_relations_equiv :
   ⟨fun a => ⟨dictEq_refl a, scanEq_refl a⟩, fun a b => ⟨dictEq_symm a b, scanEq_symm a b⟩,
    fun _ _ _ => ⟨dictEq_trans, scanEq_trans⟩, fun _ _ => scanEq_of_dictEq⟩
 
-/-- PARTIAL (known findings F15d, F15f, F15k).  Full statement: *the code identifies two keys exactly
-when `op:same-key` does* (`dictEq a b = sameKey a b ∧ scanEq a b = sameKey a b` for all keys).
-That is false on the current tree; it holds for every pair outside the decidable trigger
-predicate `keyClash`, and `keyClash a b` can only hold for a boolean against a number, for two
-dates or for two opaque values (`clashShape`). -/
-theorem key_identity_partial (a b : Key) (h : keyClash a b = false) :
-    dictEq a b = Spec.sameKey a b ∧ scanEq a b = Spec.sameKey a b :=
-  ⟨dictEq_eq_sameKey_of_not_clash h, scanEq_eq_sameKey_of_not_clash h⟩
-
-theorem key_clash_only_bool_num_or_dates (a b : Key) (h : keyClash a b = true) : clashShape a b = true :=
-  keyClash_shape a b h
+/-- **key identity by the same-key relation** (full strength since the fixes of fix-c15-3): for every
+pair of keys — integer, decimal, double incl. NaN/±INF/−0, string, anyURI, boolean, date with or
+without timezone, QName, duration, hexBinary, base64Binary — the dict of the code (constructor,
+map:get, `?`, map:merge), its key scans (map:contains/put/remove/find) and `compare.same_key`
+identify the two keys exactly when `op:same-key` does. -/
+theorem key_identity (a b : Key) :
+    dictEq a b = Spec.sameKey a b ∧ scanEq a b = Spec.sameKey a b ∧ sameKeyPy a b = Spec.sameKey a b :=
+  ⟨(key_identity_all a b).1, (key_identity_all a b).2, by rw [sameKeyPy_eq_scanEq, (key_identity_all a b).2]⟩
 
 /-- numbers are identified across types by exact value, strings with anyURIs, NaN with NaN, −0
 with 0 — by the code and by the spec alike (test on literals, both relations evaluated). -/
@@ -70,39 +68,26 @@ example : dictEq (.int 1) (.dec 1) = true ∧ dictEq (.int 1) (.dbl 1 false) = t
     Spec.sameKey .dnan .dnan = true ∧ Spec.sameKey (.dbl 0 true) (.int 0) = true ∧
     keyClash (.int 1) (.dbl 1 false) = false := by decide
 
-/-- F15d (kernel-checked witness): for the code `true()` and `1` are the same key, for F&O not. -/
-theorem key_identity_fails_bool_int :
-    dictEq (.bool true) (.int 1) = true ∧ Spec.sameKey (.bool true) (.int 1) = false ∧
-    mapCtor [(.bool true, [1]), (.int 1, [2])] = (.error .XQDY0137 : Except Err (Entries (List Nat))) ∧
-    Spec.construct [(.bool true, [1]), (.int 1, [2])] = (.ok [(.bool true, [1]), (.int 1, [2])] : Except Err (Entries (List Nat))) := by
+/-- booleans and numbers (fixed finding F15d): `true()` and `1` are different keys for the dict,
+for the scans and for F&O alike; the constructor accepts `map{true():…, 1:…}` (test on literals) -/
+example :
+    dictEq (.bool true) (.int 1) = false ∧ scanEq (.bool true) (.dbl 1 false) = false ∧
+    Spec.sameKey (.bool true) (.int 1) = false ∧ keyClash (.bool true) (.int 1) = false ∧
+    mapCtor [(.bool true, [1]), (.int 1, [2])] = (.ok [(.bool true, [1]), (.int 1, [2])] : Except Err (Entries (List Nat))) := by
   decide
 
-/-- F15f (kernel-checked witness): `xs:date('2000-01-01')` and `xs:date('2000-01-01Z')` are the
-same key for the code — for the dict (since date/time values hash by their instant) and for the
-`==` scans alike — but not for `op:same-key`, which requires both or neither to have a timezone;
-two dates *with* timezones denoting the same instant in different lexical years are the same key
-for code and spec. -/
-theorem key_identity_fails_dates :
-    dictEq (.date 2000 15778080 none) (.date 2000 15778080 (some 0)) = true ∧
-    scanEq (.date 2000 15778080 none) (.date 2000 15778080 (some 0)) = true ∧
-    Spec.sameKey (.date 2000 15778080 none) (.date 2000 15778080 (some 0)) = false ∧
+/-- timezones and binaries (fixed findings F15f, F15k; tests on literals): a date without timezone
+is not the key of the same date with Z, two dates with timezones at the same instant in different
+lexical years are one key, hexBinary and base64Binary with equal octets are different keys -/
+example :
+    dictEq (.date 2000 15778080 none) (.date 2000 15778080 (some 0)) = false ∧
+    scanEq (.date 2000 15778080 none) (.date 2000 15778080 (some 0)) = false ∧
     mapCtor [(.date 2000 15778080 none, [1]), (.date 2000 15778080 (some 0), [2])]
-      = (.error .XQDY0137 : Except Err (Entries (List Nat))) ∧
-    Spec.construct [(.date 2000 15778080 none, [1]), (.date 2000 15778080 (some 0), [2])]
       = (.ok [(.date 2000 15778080 none, [1]), (.date 2000 15778080 (some 0), [2])] :
           Except Err (Entries (List Nat))) ∧
     dictEq (.date 2000 16304400 (some (-720))) (.date 2001 16304400 (some 720)) = true ∧
-    Spec.sameKey (.date 2000 16304400 (some (-720))) (.date 2001 16304400 (some 720)) = true := by
-  decide
-
-/-- F15k (kernel-checked witness): an xs:hexBinary and an xs:base64Binary with the same octets
-are `==` for the scans (map:contains says yes) but are different keys for the dict and for
-`op:same-key`. -/
-theorem key_identity_fails_binaries :
-    scanEq (.opq 3 [0, 255]) (.opq 4 [0, 255]) = true ∧ dictEq (.opq 3 [0, 255]) (.opq 4 [0, 255]) = false ∧
-    Spec.sameKey (.opq 3 [0, 255]) (.opq 4 [0, 255]) = false ∧
-    mapContains ([(.opq 3 [0, 255], [1])] : Entries (List Nat)) (.opq 4 [0, 255]) = true ∧
-    Spec.contains ([(.opq 3 [0, 255], [1])] : Entries (List Nat)) (.opq 4 [0, 255]) = false := by
+    scanEq (.opq 3 [0, 255]) (.opq 4 [0, 255]) = false ∧ dictEq (.opq 3 []) (.opq 4 []) = false ∧
+    mapContains ([(.opq 3 [0, 255], [1])] : Entries (List Nat)) (.opq 4 [0, 255]) = false := by
   decide
 
 /-! ## arrays: every function equals its list definition -/
@@ -209,37 +194,34 @@ theorem remove_contains (es : Entries α) (h : WF es) (ks : List Key) (k : Key) 
       mapContains es' k = (mapContains es k && !ks.any fun x => scanEq k x) :=
   ⟨_, mapRemove_of_WF h ks, WF_filter _ h, mapContains_remove es ks k⟩
 
-/-- The map functions of the code are the F&O functions on keys that do not clash
-(`Agree K`, implied by the decidable `noClash K`): constructor, put, remove, get, contains. -/
-theorem map_functions_refine_spec_partial (K : List Key) (hK : noClash K = true)
-    (es : Entries (List β)) (hes : WF es) (hsub : ∀ e ∈ es, e.1 ∈ K) (k : Key) (hk : k ∈ K)
-    (ks : List Key) (hks : ∀ x ∈ ks, x ∈ K) (v : List β) :
+/-- The map functions of the code are the F&O functions, for every well-formed map and all keys:
+constructor, put, remove, get, contains. -/
+theorem map_functions_refine_spec (es : Entries (List β)) (hes : WF es) (k : Key) (ks : List Key) (v : List β) :
     mapPut es k v = .ok (Spec.put es k v) ∧
     mapRemove es ks = .ok (Spec.remove es ks) ∧
     mapGet es k = Spec.get es k ∧
     mapContains es k = Spec.contains es k ∧
     mapCtor es = Spec.construct es := by
-  have hA := Agree_of_noClash hK
   refine ⟨?_, ?_, ?_, ?_, ?_⟩
-  · rw [mapPut_of_WF hes, ← putList_eq_spec es k v fun e he => (hA e.1 (hsub e he) k hk).2]; rfl
-  · rw [mapRemove_of_WF hes, removeList_eq_spec es ks fun e he x hx => (hA e.1 (hsub e he) x (hks x hx)).2]
-  · exact mapGet_eq_spec es k fun e he => (hA e.1 (hsub e he) k hk).1
-  · exact mapContains_eq_spec es k fun e he => (hA e.1 (hsub e he) k hk).2
-  · exact mapCtor_eq_spec es fun a ha b hb => (hA a.1 (hsub a ha) b.1 (hsub b hb)).1
+  · rw [mapPut_of_WF hes, ← putList_eq_spec es k v fun e _ => (key_identity_all e.1 k).2]; rfl
+  · rw [mapRemove_of_WF hes, removeList_eq_spec es ks fun e _ x _ => (key_identity_all e.1 x).2]
+  · exact mapGet_eq_spec es k fun e _ => (key_identity_all e.1 k).1
+  · exact mapContains_eq_spec es k fun e _ => (key_identity_all e.1 k).2
+  · exact mapCtor_eq_spec es fun a _ b _ => (key_identity_all a.1 b.1).1
 
-/-- the hypotheses are satisfiable on a non-trivial map: keys 1, 'a', NaN, 2.5; put with 1.0 -/
-example : noClash [.int 1, .str [97], .dnan, .dbl (mkRat 5 2) false, .dec 1] = true ∧
+/-- test on a non-trivial map: keys 1, 'a', NaN; put with 1.0 -/
+example :
     WF ([(.int 1, [10]), (.str [97], [20]), (.dnan, [30])] : Entries (List Nat)) ∧
     mapPut ([(.int 1, [10]), (.str [97], [20]), (.dnan, [30])] : Entries (List Nat)) (.dec 1) [99] =
       .ok [(.str [97], [20]), (.dnan, [30]), (.dec 1, [99])] := by decide
 
 /-! ### map:merge -/
 
-/-- map:merge of the code = F&O map:merge (all five policies, FOJS0003 included) whenever the keys
-of the operand maps do not clash. -/
-theorem merge_refines_spec_partial (maps : List (Entries (List β))) (pol : Policy)
-    (h : noClash (keysOf maps.flatten) = true) : mapMerge maps pol = Spec.merge maps pol :=
-  mapMerge_eq_spec maps pol (Agree_of_noClash h)
+/-- map:merge of the code (dict fast path, `same_key` scan, final constructor) = F&O map:merge, all
+five policies, FOJS0003 included, for all operand maps. -/
+theorem merge_refines_spec (maps : List (Entries (List β))) (pol : Policy) :
+    mapMerge maps pol = Spec.merge maps pol :=
+  mapMerge_eq_spec maps pol (Agree_of_noClash (noClash_true _))
 
 /-- **merge_policy_*** (all policies at once).  If the merge succeeds, then for every key `k` the
 pair (is `k` present?, value of `k`) of the result is the fold of `stepVal` over all entries of all
@@ -362,44 +344,35 @@ theorem ops_persistent_fails_with_aliasing :
 
 /-! ## the code computes what F&O prescribes, over any operation sequence -/
 
-/-- PARTIAL (known findings F15d, F15f).  Full statement: *for every operation sequence the
-interpreter built from the Python transcriptions and the one built from the F&O definitions reach
-the same state* (same store, same values, same errors).  Proved for every sequence, from every
-state whose map objects are well-formed with keys in `K`, under the decidable hypotheses
-`noClash K` (no boolean-against-number pair, no clashing date pair among the keys in play) and
-"no `?` lookup with a boolean key" — the trigger predicates of F15d / F15f / F15k; `deep-equal`
-steps are excluded (their atomic comparison has its own theorems below).  Witnesses that the
-full statement is false: `key_identity_fails_bool_int`, `key_identity_fails_dates`,
-`lookup_bool_index_differs`. -/
-theorem run_refines_spec_partial (K : List Key) (hK : noClash K = true) (st : St)
-    (hst : MapsOK K st.store) (ops : List Op)
-    (hops : ∀ op ∈ ops, (∀ k ∈ opKeys op, k ∈ K) ∧ opBoolLookup op = false ∧ opIsDeq op = false) :
-    run (pyDialect false) st ops = run Spec.specDialect st ops :=
-  run_refine (Agree_of_noClash hK) st hst ops hops
+/-- **The code computes what F&O prescribes, over any operation sequence.**  From every state whose
+map objects are well-formed, for every sequence of operations without `deep-equal` steps (their
+atomic comparison differs from F&O for integers beyond 2^53 against doubles, finding F15m; see the
+deep-equal theorems below), the interpreter built from the Python transcriptions and the one built
+from the F&O definitions reach the same state: same store, same values, same errors. -/
+theorem run_refines_spec (st : St) (hst : MapsWF st.store) (ops : List Op)
+    (hops : ∀ op ∈ ops, opIsDeq op = false) :
+    run (pyDialect false) st ops = run Spec.specDialect st ops := by
+  -- K = all keys of the store and of the operations
+  let K := (st.store.flatMap fun o => match o with | .map es => keysOf es | .arr _ => []) ++ ops.flatMap opKeys
+  refine run_refine (K := K) (Agree_of_noClash (noClash_true K)) st ?_ ops ?_
+  · intro a es ha
+    refine ⟨hst a es ha, fun e he => List.mem_append_left _ ?_⟩
+    exact List.mem_flatMap.2 ⟨Obj.map es, List.mem_of_getElem? ha, mem_keysOf he⟩
+  · intro op hop
+    exact ⟨fun k hk => List.mem_append_right _ (List.mem_flatMap.2 ⟨op, hop, hk⟩), hops op hop⟩
 
-/-- …in particular from the empty state, with `K` = the literal keys of the history. -/
-theorem run_refines_spec_from_empty_partial (ops : List Op)
-    (hK : noClash (ops.flatMap opKeys) = true)
-    (hb : ∀ op ∈ ops, opBoolLookup op = false ∧ opIsDeq op = false) :
+/-- …in particular from the empty state. -/
+theorem run_refines_spec_from_empty (ops : List Op) (hb : ∀ op ∈ ops, opIsDeq op = false) :
     run (pyDialect false) ⟨[], []⟩ ops = run Spec.specDialect ⟨[], []⟩ ops :=
-  run_refine (Agree_of_noClash hK) ⟨[], []⟩ (fun a es h => by simp at h) ops
-    (fun op hop => ⟨fun k hk => List.mem_flatMap.2 ⟨op, hop, hk⟩, hb op hop⟩)
+  run_refines_spec ⟨[], []⟩ (fun a es h => by simp at h) ops hb
 
-/-- the hypotheses hold for a non-trivial history (keys 1, 1.0, 'a', NaN; put, merge, lookup) -/
+/-- test on a non-trivial history (keys 1, 1.0, 'a', NaN, true(); put, merge, lookup) -/
 example :
     let ops := [Op.seq [.lit (.int 7)], .mCtor [(.int 1, 0), (.str [97], 0), (.dnan, 0)],
       .mPut 1 (.dec 1) 0, .seq [.var 1, .var 2], .mMerge 3 (some .combine), .lookup 4 (some [.dnan, .int 1])]
-    noClash (ops.flatMap opKeys) = true ∧ (∀ op ∈ ops, opBoolLookup op = false ∧ opIsDeq op = false) ∧
+    (∀ op ∈ ops, opIsDeq op = false) ∧
     (run (pyDialect false) ⟨[], []⟩ ops).env.getLast? =
       some [.atom (.int 7), .atom (.int 7), .atom (.int 7), .atom (.int 7)] := by decide
-
-/-- F15d at a `?` lookup (kernel-checked witness): `[$0]?(true())` gives the first member for the
-code, XPTY0004 for the spec. -/
-theorem lookup_bool_index_differs :
-    let ops := [Op.seq [.lit (.int 7)], .aSquare [0], .lookup 1 (some [.bool true])]
-    (run (pyDialect false) ⟨[], []⟩ ops).env[2]? = some [.atom (.int 7)] ∧
-    (step Spec.specDialect (run Spec.specDialect ⟨[], []⟩ (ops.take 2)) (.lookup 1 (some [.bool true]))).2
-      = some .XPTY0004 := by decide
 
 /-! ## lookups over sequences, call-site reuse -/
 
@@ -441,6 +414,34 @@ theorem call_site_reuse_eq_map (d : Dialect) (hd : d.alias = false) (st : St) (h
   have hp := run_prefix d hd st between
   exact read_op_stable d hst hp.1 hp.2 op vars hv hvars
 
+/-! ## the structural part of deep-equal -/
+
+/-- **store_wellfounded**: in every state the machine reaches from the empty one, each object
+mentions only addresses *older than its own* (values are built before the objects that contain
+them and never change afterwards) — no cycles; and every map object is duplicate-free. -/
+theorem store_wellfounded (ops : List Op) :
+    StoreOK (run (pyDialect false) ⟨[], []⟩ ops).store ∧ MapsWF (run (pyDialect false) ⟨[], []⟩ ops).store :=
+  ⟨(run_StOK (Pres_py false) rfl StOK_empty ops).1, run_py_MapsWF ⟨[], []⟩ (fun a es h => by simp at h) ops⟩
+
+/-- **deep_equal_refl** (nested values): after any operations from the empty state, every value
+bound to a variable is deep-equal to itself — maps inside arrays inside maps, NaN keys and NaN
+values, to any depth — with the fuel the interpreter really uses (`deq` step: 2·|store| + 4).
+The recursion terminates because the store is well-founded; a map entry is found again in its own
+map because maps are duplicate-free. -/
+theorem deep_equal_refl (ops : List Op) (i : Nat) (v : Seq)
+    (hv : (run (pyDialect false) ⟨[], []⟩ ops).env[i]? = some v) :
+    deepEqSeq (pyDialect false) (run (pyDialect false) ⟨[], []⟩ ops).store
+      (2 * (run (pyDialect false) ⟨[], []⟩ ops).store.length + 4) v v = true := by
+  have hst := run_StOK (Pres_py false) rfl StOK_empty ops
+  have hw := run_py_MapsWF ⟨[], []⟩ (fun a es h => by simp at h) ops
+  exact deepEq_refl (pyDialect false) pyAtomEq_refl py_map_self _ hst.1 hw _ (Nat.le_refl _) v
+    (hst.2 v (List.mem_of_getElem? hv)) _ (by omega)
+
+/-- test on literals: `$0 := NaN`, `$1 := map{NaN: $0}`, `$2 := [$1, $0]`, `deep-equal($2, $2)` -/
+example :
+    (run (pyDialect false) ⟨[], []⟩ [.seq [.lit .dnan], .mCtor [(.dnan, 0)], .aSquare [1, 0], .deq 2 2]).env[3]?
+      = some [.atom (.bool true)] := by decide
+
 /-! ## deep-equal on atomic values -/
 
 /-- the atomic comparison of `deep_equal` is reflexive (NaN included) and symmetric -/
@@ -448,22 +449,23 @@ theorem atom_deep_equal_refl_symm :
     (∀ a : Key, pyAtomEq a a = true) ∧ (∀ a b : Key, pyAtomEq a b = pyAtomEq b a) :=
   ⟨pyAtomEq_refl, pyAtomEq_symm⟩
 
-/-- PARTIAL (F15k and an exactness caveat).  Full statement: *the atomic comparison of the code is
+/-- PARTIAL (F15m).  Full statement: *the atomic comparison of the code is
 F&O's "`eq` or both NaN"*.  It holds outside `atomClash`, and `atomClash a b` is possible only for
 an integer against a double (Python compares exactly where F&O first converts the integer to
-xs:double — observable beyond 2^53 only) or for two opaque values (hexBinary against base64Binary). -/
+xs:double — observable beyond 2^53 only). -/
 theorem atom_deep_equal_partial (a b : Key) :
     (atomClash a b = false → pyAtomEq a b = Spec.atomDeepEqual a b) ∧
     (atomClash a b = true → atomClashShape a b = true) :=
   ⟨pyAtomEq_eq_spec_of_not_clash, atomClash_shape a b⟩
 
-/-- kernel-checked witnesses: 2^53+1 against the double 2^53; hexBinary against base64Binary;
+/-- kernel-checked witness: 2^53+1 against the double 2^53 (F15m); agreement on hexBinary against
+base64Binary (both false);
 and agreement on the usual suspects (0.1 against 0.1e0 is equal for both: the decimal is converted
 to double; `true()` against 1 is unequal for both) -/
 theorem atom_deep_equal_witnesses :
     pyAtomEq (.int 9007199254740993) (.dbl 9007199254740992 false) = false ∧
     Spec.atomDeepEqual (.int 9007199254740993) (.dbl 9007199254740992 false) = true ∧
-    pyAtomEq (.opq 3 [0, 255]) (.opq 4 [0, 255]) = true ∧
+    pyAtomEq (.opq 3 [0, 255]) (.opq 4 [0, 255]) = false ∧
     Spec.atomDeepEqual (.opq 3 [0, 255]) (.opq 4 [0, 255]) = false ∧
     pyAtomEq (.dec (mkRat 1 10)) (.dbl (mkRat 3602879701896397 36028797018963968) false) = true ∧
     Spec.atomDeepEqual (.dec (mkRat 1 10)) (.dbl (mkRat 3602879701896397 36028797018963968) false) = true ∧
